@@ -204,6 +204,17 @@ func firstDiff(a, b []byte) int {
 
 // checkFixedPoint is part (b) for a byte string b accepted by Read.
 func checkFixedPoint(t interface{ Fatalf(string, ...any) }, b []byte, what string) bool {
+	return checkFixedPointNF(t, b, what, false)
+}
+
+// checkFixedPointNF: with normalForm set, the re-read font is compared with
+// the normal form of the first-read font (the same documented merge rules as
+// in the value clause: a file of another producer may yield a font value that
+// is not in the writer's normal form, e.g. a fractional underline position
+// taken from a CFF table when there is no post table); the font read after
+// that must then equal the re-read font exactly, and the bytes are compared
+// as always.
+func checkFixedPointNF(t interface{ Fatalf(string, ...any) }, b []byte, what string, normalForm bool) bool {
 	f1, err, pn := read(b)
 	if pn != nil {
 		// totality is C02's concern; count and skip
@@ -224,7 +235,11 @@ func checkFixedPoint(t interface{ Fatalf(string, ...any) }, b []byte, what strin
 	if pn != nil || err != nil {
 		t.Fatalf("%s: Read rejects Write(Read(b)): err=%v panic=%v", what, err, pn)
 	}
-	if d := fontcmp.Diff(f1, f2); d != "" {
+	want := f1
+	if normalForm {
+		want = normalise(f1)
+	}
+	if d := fontcmp.Diff(want, f2); d != "" {
 		t.Fatalf("%s: Read(Write(Read(b))) != Read(b): %s", what, d)
 	}
 	b2, err, pn := write(f2)
@@ -233,6 +248,15 @@ func checkFixedPoint(t interface{ Fatalf(string, ...any) }, b []byte, what strin
 	}
 	if !bytes.Equal(b1, b2) {
 		t.Fatalf("%s: Write(Read(Write(Read(b)))) != Write(Read(b)): first difference at byte %d (lengths %d, %d)", what, firstDiff(b1, b2), len(b1), len(b2))
+	}
+	if normalForm {
+		f3, err, pn := read(append([]byte(nil), b2...))
+		if pn != nil || err != nil {
+			t.Fatalf("%s: third Read failed: err=%v panic=%v", what, err, pn)
+		}
+		if d := fontcmp.Diff(f2, f3); d != "" {
+			t.Fatalf("%s: the re-read font is not a fixed point: %s", what, d)
+		}
 	}
 	return true
 }
